@@ -4,7 +4,7 @@ From Coq Require Import String.
 From AQ Require Import lib.Base model.LogErase model.LogEnc gen.LogSkeleton
   proofs.LogEraseP proofs.LogSkeletonP proofs.LogEncP
   model.LogVal proofs.LogValP gen.LogEncoders proofs.LogEncodersP
-  model.LogRec proofs.LogRecP gen.LogRecords proofs.LogRecordsP.
+  model.LogRec proofs.LogRecP gen.LogRecords proofs.LogRecordsP proofs.LogCoverP.
 
 (* Generic, proved once by induction on programs of the Core/Log language of model/LogErase.v.
    For any callee environment in which (1) the callees accepted inside Log code only touch logger-owned
@@ -132,6 +132,16 @@ Theorem encoders_total_all : forall m, In m enc_methods ->
   exists v, call enc_tabs m vs = Ok v /\ is_json v = true.
 Proof. exact encoders_total_all_l. Qed.
 Print Assumptions encoders_total_all.
+
+(* premise (1) of erasure_noninterference, its "do not raise" half, DISCHARGED for the QuicLoggerTrace callees: every
+   callee `FLogger m` that the skeleton checker accepts inside Log code is one of the generated method bodies, and
+   does not raise on its domain *)
+Theorem flogger_callees_total : forall m, fn_log_ok checked_methods (FLogger m) = true ->
+  exists me, In me enc_methods /\ same_method m me = true /\
+    forall vs, Forall2 (fun t v => vty enc_tabs t v = true) (map snd (m_params me)) vs ->
+      exists v, call enc_tabs me vs = Ok v /\ is_json v = true.
+Proof. exact flogger_callees_total_l. Qed.
+Print Assumptions flogger_callees_total.
 
 (* ... and at every call site (connection.py, recovery.py, packet_builder.py, h3/connection.py), on every argument
    vector of the types INFERRED for the argument expressions of that site (annotations of logger.py not used) *)
